@@ -24,7 +24,7 @@ BOUNDS = {
     'quick': 'jump tables with k<=3 rows: atom ids in [0,1], start<stop times any integers in [0,1000], window W any integer '
              'in [0,1000], origin != destination sites symbolic over 4 pool sites; geometries: k=2 on cubic5/four, rhomb60/shear4, '
              'hex558/four; k=3 on rhomb60/shear4',
-    'thorough': 'k<=3 rows with atom ids in [0,2] on all 4 pool geometries (cubic, rhombohedral 60 deg, triclinic, hexagonal); window arithmetic',
+    'thorough': 'k<=3 rows with atom ids in [0,2] on all 4 pool geometries (cubic, rhombohedral 60 deg, triclinic, hexagonal), k=4 (2 atoms) on the rhombohedral one; window arithmetic',
 }
 OUTSIDE = ['more than 3 jumps per table (k=4 needs ~10^6 paths of pandas code)', 'the attempt frequency itself (scipy periodogram), only ceil(1/(nu*dt)) is covered']
 ASSUMPTIONS = [
@@ -237,7 +237,7 @@ def jobs(tier, seed):
         cfg = [(2, 'cubic5/four', 2), (2, 'rhomb60/shear4', 2), (2, 'hex558/four', 2),
                (3, 'rhomb60/shear4', 3), (3, 'cubic5/four', 3)]
     else:
-        cfg = [(k, g, min(k, 3)) for k in (2, 3, 4) for g in GEOMS]
+        cfg = [(k, g, min(k, 3)) for k in (2, 3) for g in GEOMS] + [(4, 'rhomb60/shear4', 2)]
     for k, g, A in cfg:
         depth = 0 if k < 3 else (4 if k == 3 else 8)
         for i in range(2 ** depth):
